@@ -1,17 +1,15 @@
 SPECIFICATION Spec
 CONSTANTS
-  W = {"w1", "w2"}
-  MaxBody = 2
+  W = {"w1"}
+  MaxBody = 3
   Faults = 1
-  Stale = {1}
+  Stale = {1, 2}
   DirMissing = TRUE
-  AnySplit = TRUE
-  KeepHist = FALSE
+  AnySplit = FALSE
+  KeepHist = TRUE
 INVARIANT DestOldOrNew
 INVARIANT FailedIsClean
 INVARIANT DoneIsNew
 INVARIANT TempsDisjoint
-INVARIANT DeadIsIntact
-INVARIANT StaleKept
-PROPERTY OthersUntouched
+ACTION_CONSTRAINT EmitPath
 CHECK_DEADLOCK FALSE
